@@ -217,6 +217,7 @@ def check(ctx):
     for q in ("bromelia.base.DiameterMessage.load", "bromelia.base.DiameterAVP.load"):
         fi = ctx.need(repo.funcs.get(q), q)
         lower_bound_progress(ctx, repo, R, fi, q)
+    framing_rules(ctx, repo)
     # recursive decode of Grouped data receives the AVP's own data (strictly shorter than the enclosing stream)
     g = ctx.need(repo.cls("bromelia.types.GroupedType"), "GroupedType")
     src = ast.unparse(g.methods["__init__"])
@@ -319,3 +320,70 @@ def _trace(R, q, e, depth=0):
     if o.startswith("setter ") and depth < 6:
         return o + " -> " + _trace(R, o[7:], e, depth + 1)
     return o
+
+
+def framing_rules(ctx, repo, rule_prefix="R-LOWER/framing"):
+    """bromelia.setup.get_complete_messages_length on terms (one iteration of its scan loop, I = offset of the header,
+    L = the Message Length read at I+1..I+4): a complete message advances the offset by L, an incomplete one ends the scan
+    with the offset unchanged (the tail stays buffered), and a header whose length is below 20 is never left at the front
+    of the buffer - the whole stream is handed to the decoder, which rejects it."""
+    from .. import sym
+    from ..astutil import strip_doc
+    m = ctx.need(repo.mods.get("bromelia.setup"), "module bromelia.setup")
+    fn = ctx.need(m.funcs.get("get_complete_messages_length"), "bromelia.setup.get_complete_messages_length")
+    construct = "bromelia.setup.get_complete_messages_length"
+    where = f"{m.rel}:{fn.lineno}"
+    loops = [n for n in walk_no_nested(fn) if isinstance(n, ast.While)]
+    p0 = fn.args.args[0].arg if fn.args.args else "stream"
+    if len(loops) != 1:
+        ctx.undecided(rule_prefix, construct, where, "expected one scan loop", key="loop")
+        return
+    lp = loops[0]
+    idx = next((n.id for n in ast.walk(lp.test) if isinstance(n, ast.Name) and n.id != p0 and
+                any(isinstance(x, ast.Name) and x.id == n.id and isinstance(x.ctx, ast.Store) for x in ast.walk(lp))), None)
+    if idx is None:
+        ctx.undecided(rule_prefix, construct, where, "scan offset not recognised", key="loop")
+        return
+    I, S, L = sym.S("int:I"), sym.S(p0), sym.S("int:L")
+    LEN = ("call", ("name", "len"), (S,), ())
+
+    def hook(t):
+        if isinstance(t, tuple) and t and t[0] == "call" and len(t[2]) >= 1 and isinstance(t[2][0], tuple) and t[2][0][0] == "slice" \
+                and t[2][0][1] == S and t[2][0][2] == sym.add(I, 1) and t[2][0][3] == sym.add(I, 4) \
+                and (t[1] == ("attr", ("name", "int"), "from_bytes") or "integer_from_bytes" in sym.show(t[1])):
+            return L
+        return None
+    paths = sym.Interp(fold=lambda e: repo.fold(m, e), hook=hook).loop_body(lp, {idx: I, p0: S})
+    rets = [ast.unparse(n.value) for n in walk_no_nested(fn) if isinstance(n, ast.Return) and n.value is not None and
+            not any(n is x for x in ast.walk(lp))]
+    ctx.decide(rets == [idx], rule_prefix, construct, where, "after the scan the offset of the first incomplete message is returned",
+               f"after the scan the function returns {rets}, not the offset reached", key="final_return", nontrivial=False)
+    n_mal = n_full = n_part = 0
+    for p_ in paths:
+        short = [tv for c, tv in p_.conds if isinstance(c, tuple) and c[0] == "cmp" and c[1] == "Lt" and c[2] == L and c[3] == 20]
+        part = [tv for c, tv in p_.conds if isinstance(c, tuple) and c[0] == "cmp" and c[1] == "Lt" and c[3] == L
+                and c[2] == sym.add(LEN, I, -1)]
+        if short == [True]:
+            n_mal += 1
+            ok = p_.term == "return" and p_.value == LEN
+            ctx.decide(ok, rule_prefix + "-malformed", construct, f"{m.rel}:{lp.lineno}",
+                       "a Message Length below 20 hands the whole stream to the decoder (which rejects it)",
+                       f"when the header at the scan offset has a Message Length below 20 the scan ends with `{p_.term}`"
+                       f"{' ' + sym.show(p_.value) if p_.term == 'return' else ''} instead of handing the whole stream over: with the "
+                       f"malformed header at the front of the buffer nothing is ever consumed, every later message queues up behind it and "
+                       f"the connection is deaf from then on", key="malformed")
+        elif short == [False] and part == [True]:
+            n_part += 1
+            ctx.decide(p_.term == "break" and p_.get(idx) == I, rule_prefix + "-partial", construct, f"{m.rel}:{lp.lineno}",
+                       "an incomplete message ends the scan with the offset unchanged",
+                       f"an incomplete trailing message ends the iteration with `{p_.term}` and offset `{sym.show(p_.get(idx))}`", key="partial")
+        elif short == [False] and part == [False]:
+            n_full += 1
+            ctx.decide(p_.term in ("fall", "continue") and p_.get(idx) == sym.add(I, L), rule_prefix + "-advance", construct,
+                       f"{m.rel}:{lp.lineno}", "a complete message advances the offset by its Message Length",
+                       f"a complete message changes the offset to `{sym.show(p_.get(idx))}` (iteration ends with `{p_.term}`)", key="advance")
+        else:
+            ctx.undecided(rule_prefix, construct, f"{m.rel}:{lp.lineno}", f"path conditions not recognised: "
+                          f"{[(sym.show(c), tv) for c, tv in p_.conds]}", key="path")
+    if not (n_mal and n_full and n_part):
+        ctx.undecided(rule_prefix, construct, where, f"cases found: malformed {n_mal}, complete {n_full}, incomplete {n_part}", key="cases")
